@@ -1,6 +1,6 @@
 (* C18 - Counterfactual-graph construction preserves the event's probability. *)
 From Coq Require Import List Bool Relations.
-From Y0 Require Import Base.ListSet Graph.MixedGraph Dsl.Syntax Dsl.Build Alg.Cg Proofs.SurgeryP Proofs.CfP.
+From Y0 Require Import Base.ListSet Graph.MixedGraph Dsl.Syntax Dsl.Build Alg.Cg Proofs.SurgeryP Proofs.CfP Proofs.CgAcyclicP.
 Import ListNotations.
 
 (* The semantic clauses (same probability; inconsistent => probability zero) rest on Lemmas 24/25 of Shpitser & Pearl
@@ -17,5 +17,14 @@ Theorem C18_event_contradicting_its_own_subscript_is_inconsistent g ev topo worl
   violates_effectiveness ev = true -> snd (make_counterfactual_graph g ev topo worlds) = None.
 Proof. exact (cg_effectiveness_violation_is_inconsistent g ev topo worlds). Qed.
 
+(* the produced graph is acyclic: for any ranking r of variable names that the edges of the input graph respect (a topological
+   order of the input graph is one), every edge of the counterfactual graph goes upward in r; hence there is no directed
+   cycle - for every event, every order of the worlds, and whether or not an inconsistency is reported *)
+Theorem C18_counterfactual_graph_is_acyclic (r : nat -> nat) g ev topo worlds :
+  (forall a b, In (a, b) (dir g) -> r (vn a) < r (vn b)) ->
+  forall v, ~ clos_trans var (fun a b => In (a, b) (dir (fst (make_counterfactual_graph g ev topo worlds)))) v v.
+Proof. exact (counterfactual_graph_acyclic r g ev topo worlds). Qed.
+
+Print Assumptions C18_counterfactual_graph_is_acyclic.
 Print Assumptions C18_result_graph_is_the_ancestral_set_of_the_relabelled_event.
 Print Assumptions C18_event_contradicting_its_own_subscript_is_inconsistent.
